@@ -175,14 +175,26 @@ func entropy(t *rapid.T) (io.Reader, func() io.Reader, string) {
 func propSignRaw(t *rapid.T) {
 	d, dk := privScalar(t)
 	dlen := 32
-	if rapid.IntRange(0, 2).Draw(t, "long") == 0 {
+	switch rapid.IntRange(0, 8).Draw(t, "long") {
+	case 0, 1, 2:
 		dlen = rapid.IntRange(32, 64).Draw(t, "dlen")
+	case 3:
+		// longer than any hash output.  Whether such a digest is "admissible" is the library's call (today it
+		// is: only the leftmost 32 bytes count); what the property fixes is that it is either refused with an
+		// error or signed correctly for e = leftmost 256 bits
+		dlen = rapid.IntRange(65, 160).Draw(t, "dlen-over")
 	}
 	digest, digk := digestBytes(t, dlen)
 	rnd, again, rdesc := entropy(t)
 	key := signingKey(t, d)
 	q := ref.BaseMul(d)
 	r, s, v, err := key.SignRaw(rnd, digest)
+	if err != nil && dlen > 64 {
+		stat.Case("signraw", []string{"refused:oversize-digest"}, false, []byte(fmt.Sprintf("%x|%x", d, digest)), func() any {
+			return map[string]any{"d": d.Text(16), "digest_len": dlen, "refused": err.Error()}
+		})
+		return
+	}
 	if err != nil {
 		t.Fatalf("SignRaw failed for an admissible digest: %v", err)
 	}
